@@ -20,6 +20,7 @@ import re
 from ..cfg import cfg_of
 from ..core import (
     AnalysisError,
+    clone,
     ancestors,
     call_name,
     dotted,
@@ -698,7 +699,141 @@ def rule_cmp(program, ctx, prop=P, rid="C01.cmp"):
             ctx.bad(finding_func(prop, rid, ce, f"check_event no longer compares created_at with the filter's {f}", text=f"def check_event(...) :: {f}"))
 
 
+# --------------------------------------------------------------------------
+# the tag index is written exactly: name and value unmodified, for every one-character name (shared with C02/C05/C17)
+
+
+def _atom_ok(e, T):
+    """guard literal allowed around the indexing of a tag: presence/shape tests of the tag itself"""
+    src = ast.unparse(e)
+    if isinstance(e, ast.BoolOp):
+        return all(_atom_ok(v, T) for v in e.values)
+    if isinstance(e, ast.UnaryOp) and isinstance(e.op, ast.Not):
+        return _atom_ok(e.operand, T)
+    if src in (T, f"len({T})", f"{T}[0]"):
+        return True
+    if isinstance(e, ast.Compare) and len(e.ops) == 1:
+        left, op, right = ast.unparse(e.left), e.ops[0], e.comparators[0]
+        if left == f"len({T}[0])" and isinstance(op, ast.Eq) and isinstance(right, ast.Constant) and right.value == 1:
+            return True
+        if left == f"{T}[0]" and isinstance(op, (ast.In, ast.NotIn, ast.Eq, ast.NotEq)) and (
+                (isinstance(right, (ast.Tuple, ast.List, ast.Set)) and all(isinstance(x, ast.Constant) and isinstance(x.value, str) for x in right.elts))
+                or (isinstance(right, ast.Constant) and isinstance(right.value, str))):
+            return True
+        if left == f"len({T})" and ((isinstance(op, ast.Gt) and getattr(right, "value", None) == 1) or (isinstance(op, ast.GtE) and getattr(right, "value", None) == 2)):
+            return True
+    return False
+
+
+def rule_tagindex(program, ctx, prop=P, rid="C01.tagindex"):
+    from ..lib import expand_aliases, guard_atoms
+
+    ctx.rule(
+        rid,
+        "writer/reader agreement on the tag index: DBStorage.process_tags and TagIndex.convert index (tag[0], tag[1]) unmodified (no slice, case folding or "
+        "type filter) for *every* one-character tag name - the only admissible conditions around the indexing statement are shape tests of the tag itself "
+        "(len(tag[0]) == 1, tag[0] in (…), len(tag) > 1). The stored-query side compares the full value for equality and accepts any '#x'; the live matcher "
+        "matches on the event's own tags: a narrower or lossy index makes stored and live matching disagree and returns events whose tag value differs",
+        floor=2,
+    )
+    sites = [("nostr_relay.storage.db:DBStorage.process_tags", "sql"), ("nostr_relay.storage.kv:TagIndex.convert", "kv")]
+    for q, kind in sites:
+        fn = program.func(q)
+        loops = [l for l in walk_no_nested(fn) if isinstance(l, ast.For) and isinstance(l.target, ast.Name) and ast.unparse(l.iter) in ("event.tags",)]
+        found_single = False
+        n_sites = 0
+        for l in loops:
+            T = l.target.id
+            # loop-local names for parts of the tag (name = tag[0]; value = tag[1] if … else "") are read through
+            local = {}
+            for st in l.body:
+                if isinstance(st, ast.Assign) and len(st.targets) == 1 and isinstance(st.targets[0], ast.Name) and st.targets[0].id != T:
+                    if sum(1 for x in ast.walk(l) if isinstance(x, ast.Name) and x.id == st.targets[0].id and isinstance(x.ctx, ast.Store)) == 1:
+                        local[st.targets[0].id] = st.value
+
+            class _Sub(ast.NodeTransformer):
+                def visit_Name(self, node):
+                    if isinstance(node.ctx, ast.Load) and node.id in local:
+                        return self.visit(clone(local[node.id]))
+                    return node
+
+            def rd(e):
+                return _Sub().visit(clone(e))
+
+            for n in ast.walk(l):
+                pair = None
+                if kind == "sql" and isinstance(n, ast.Call) and isinstance(n.func, ast.Attribute) and n.func.attr in ("add", "append") and n.args and isinstance(n.args[0], ast.Tuple) and len(n.args[0].elts) == 2:
+                    pair = n.args[0].elts
+                if kind == "kv" and isinstance(n, ast.Yield) and isinstance(n.value, ast.Call) and call_name(n.value).endswith("to_key") and n.value.args and isinstance(n.value.args[0], ast.Tuple) and len(n.value.args[0].elts) == 2:
+                    pair = n.value.args[0].elts
+                if pair is None:
+                    continue
+                n_sites += 1
+                a = ast.unparse(rd(expand_aliases(fn, pair[0])))
+                b = ast.unparse(rd(expand_aliases(fn, pair[1])))
+                ok_b = {f"{T}[1]", f"{T}[1] if len({T}) > 1 else ''", f"{T}[1] if len({T}) >= 2 else ''"} if kind == "sql" else {f"str({T}[1])", f"{T}[1]"}
+                good = True
+                if a != f"{T}[0]":
+                    good = False
+                    ctx.bad(finding_at(prop, rid, n, f"the indexed tag name is `{a}`, not `{T}[0]`"))
+                if b not in ok_b:
+                    good = False
+                    ctx.bad(finding_at(prop, rid, n, f"the indexed tag value is `{b}`, a transformation of `{T}[1]`: an equality query for the stored (shortened / folded) text returns an event "
+                                       "whose tag value is a different string, and the full value is no longer found", text="value"))
+                atoms = [(rd(e), pol) for e, pol in guard_atoms(n, stop=l)]
+                badatoms = [(e, pol) for e, pol in atoms if not _atom_ok(e, T)]
+                if badatoms:
+                    good = False
+                    e, pol = badatoms[0]
+                    ctx.bad(finding_at(prop, rid, n, f"indexing of a tag additionally requires `{'' if pol else 'not '}{ast.unparse(e)[:80]}`: tags that queries ('#x' for any single character, "
+                                       "the expiration collector) look up get no index entry", text="guard"))
+                single = any(ast.unparse(e).replace(" ", "").find(f"len({T}[0])==1") >= 0 and (pol or isinstance(e, ast.BoolOp)) for e, pol in atoms)
+                if single and not badatoms:
+                    found_single = True
+                if good:
+                    ctx.ok(rid, n, f"{qual_of(fn)}: indexes ({a}, {b}) under {[('' if pol else 'not ') + ast.unparse(e)[:40] for e, pol in atoms]}")
+        if not n_sites:
+            ctx.bad(finding_func(prop, rid, fn, f"{qual_of(fn)} no longer indexes (name, value) pairs of event.tags", text=f"def {fn.name}(...) :: pairs"))
+        elif not found_single:
+            ctx.bad(finding_func(prop, rid, fn, f"{qual_of(fn)}: no indexing statement is reached for every tag whose name has length 1", text=f"def {fn.name}(...) :: single-letter"))
+
+
+def rule_emptylist(program, ctx, prop=P, rid="C01.emptylist"):
+    ctx.rule(
+        rid,
+        "a present-but-empty ids/authors/kinds list stays a list: the field validators of NostrQuery never map a value to None / drop it (`x or None`, conditional None) - "
+        "evaluate_filter and the LMDB planner turn an empty list into 'matches nothing'; as None the condition disappears and the filter matches everything else",
+        floor=1,
+    )
+    ci = program.cls("nostr_relay.storage.base:NostrQuery")
+    n = 0
+    for name, fn in ci.methods.items():
+        decs = [d for d in fn.decorator_list if isinstance(d, ast.Call) and call_name(d) in ("field_validator", "validator")]
+        if not decs:
+            continue
+        fields = {a.value for d in decs for a in d.args if isinstance(a, ast.Constant)}
+        if not fields & {"ids", "authors", "kinds"}:
+            continue
+        for r in walk_no_nested(fn):
+            if not isinstance(r, ast.Return) or r.value is None:
+                continue
+            n += 1
+            v = r.value
+            nullable = (isinstance(v, ast.Constant) and v.value is None) or (isinstance(v, ast.BoolOp) and isinstance(v.op, ast.Or) and any(isinstance(x, ast.Constant) and not x.value for x in v.values)) \
+                or (isinstance(v, ast.IfExp) and any(isinstance(x, ast.Constant) and x.value is None for x in (v.body, v.orelse)))
+            if nullable:
+                ctx.bad(finding_at(prop, rid, r, f"{name} can return None for a list the client did supply (`{ast.unparse(v)[:60]}`): `{{\"ids\": [], \"kinds\": [1]}}` is answered with every kind-1 event"))
+            else:
+                ctx.ok(rid, r, f"{name} returns a list for {sorted(fields)}")
+    if not n:
+        ctx.info(rid, ci.node, "no field validator for ids/authors/kinds")
+        ctx.floors[rid] = 0
+
+
 def run(program, ctx):
+    from ..lib import rule_awaited
+
+    rule_awaited(program, ctx, P, ANCHORS)
     rid = ctx.rule(
         "C01.model",
         "marks derived from the NostrQuery model: HEX for ids/authors only if AfterValidator(ids_are_hex) is attached and ids_are_hex "
@@ -712,6 +847,8 @@ def run(program, ctx):
     rule_residual(program, ctx)
     rule_planner(program, ctx)
     rule_cmp(program, ctx)
+    rule_tagindex(program, ctx)
+    rule_emptylist(program, ctx)
     ctx.not_decided += [
         "that the assembled WHERE clause / index scan is semantically NIP-01 matching for all stores (LEFT JOIN, LIKE prefixes, scanner arithmetic)",
         "that only accepted events are in the store (C03/C06)",
